@@ -317,10 +317,12 @@ def write_replay(prop_id, seed, payload):
 
 
 def write_evidence(prop_id, tier, seed, level, coverage, wall_s, violations, assumptions):
-    os.makedirs(EVIDENCE, exist_ok=True)
+    # runs on a deliberately changed tree (tools/run_seeded.py) must not overwrite the evidence of the real one
+    evdir = os.environ.get("VERIF_EVIDENCE_DIR") or EVIDENCE
+    os.makedirs(evdir, exist_ok=True)
     ev = {"property_id": prop_id, "tier": tier, "seed": seed, "level": level, "coverage": coverage,
           "assumptions": assumptions, "wall_s": round(wall_s, 1), "violations": violations}
-    with open(os.path.join(EVIDENCE, prop_id + ".json"), "w") as f:
+    with open(os.path.join(evdir, prop_id + ".json"), "w") as f:
         json.dump(ev, f, indent=1)
     return ev
 
